@@ -39,6 +39,9 @@ class Check(PropertyCheck):
             if _i % 15 == 14:
                 yield slices.zero_first_scenario(rng)
                 continue
+            if _i % 15 == 6:
+                yield slices.stale_ready_scenario(rng)
+                continue
             # every other scenario continues with a second episode after reset(): the clauses hold there as well
             yield slices.dispatch_scenario(rng, observers=True, with_invalid=True, max_jobs=4 if tier == "quick" else 5,
                                            max_ops=4 if tier == "quick" else 6, replay=rng.random() < 0.5,
